@@ -163,6 +163,7 @@ type LockInv struct {
 }
 
 type ContractSet struct {
+	AssumePure  map[string]bool      // full names (types.Func.FullName) of callees without contract that are taken to be pure functions of their arguments
 	Closable    map[string]bool      // pkgpath.<elem type text>: channels of this element type get closed - see closableChan
 	NeverClosed map[string]bool      // pkgpath.<elem type text>: no close of such a channel anywhere in the package (sweep)
 	ChanInvs    map[string]*ChanInv  // pkgpath.<elem type text>
@@ -190,7 +191,7 @@ var chaninvHdr = regexp.MustCompile(`^chaninv\s+(\*?[A-Za-z_][A-Za-z0-9_.]*)\s*\
 var lockinvHdr = regexp.MustCompile(`^lockinv\s+([A-Za-z_][A-Za-z0-9_]*)\.([A-Za-z_][A-Za-z0-9_]*)\s*\(\s*([A-Za-z_][A-Za-z0-9_]*)\s*\)\s*protects\s+([A-Za-z0-9_, ]+):\s*(.*)$`)
 var poolHdr = regexp.MustCompile(`^pool\s+([A-Za-z_][A-Za-z0-9_]*)\s+(\S+)\s*:\s*(.*)$`)
 
-var clauseKeywords = []string{"package", "neverclosed", "closable", "chaninv", "lockinv", "init", "guarded", "usemethods", "typeinv", "noinv", "methods", "callsite", "func", "spec", "lemma", "lang", "pool", "interface", "implements", "let", "running", "assume", "requires", "ensures", "modifies", "loop", "use", "assert", "inline", "trusted", "pure"}
+var clauseKeywords = []string{"package", "assumepure", "neverclosed", "closable", "chaninv", "lockinv", "init", "guarded", "usemethods", "typeinv", "noinv", "methods", "callsite", "func", "spec", "lemma", "lang", "pool", "interface", "implements", "let", "running", "assume", "requires", "ensures", "modifies", "loop", "use", "assert", "inline", "trusted", "pure"}
 
 func startsKeyword(s string) string {
 	for _, k := range clauseKeywords {
@@ -528,6 +529,29 @@ func (cs *ContractSet) parse(src, file, pkgPath string) {
 				}
 			}
 			cs.Specs[sf.Name] = sf
+			cur = nil
+		case "assumepure":
+			// assumepure f, (T).M, (*T).M, other/pkg.F: callees without contract or model that are deterministic
+			// functions of their arguments and change nothing (each one is read and justified where it is listed)
+			if cs.AssumePure == nil {
+				cs.AssumePure = map[string]bool{}
+			}
+			for _, n := range strings.Split(strings.TrimSpace(strings.TrimPrefix(rc.text, "assumepure")), ",") {
+				n = strings.TrimSpace(n)
+				if n == "" {
+					continue
+				}
+				full := n
+				switch {
+				case strings.HasPrefix(n, "(*") && !strings.Contains(n, "/") && !strings.Contains(n[:strings.Index(n, ")")], "."):
+					full = "(*" + pkgPath + "." + n[2:]
+				case strings.HasPrefix(n, "(") && !strings.HasPrefix(n, "(*") && !strings.Contains(n, "/") && !strings.Contains(n[:strings.Index(n, ")")], "."):
+					full = "(" + pkgPath + "." + n[1:]
+				case !strings.HasPrefix(n, "(") && !strings.Contains(n, "."):
+					full = pkgPath + "." + n
+				}
+				cs.AssumePure[full] = true
+			}
 			cur = nil
 		case "neverclosed":
 			f := strings.Fields(rc.text)
